@@ -259,7 +259,30 @@ class Gef:
             else:
                 cands.append((p, sa))
         if len(cands) > 1:
-            return []       # a disjunction: the short-circuit spelling has no single dominating test here either
+            # a disjunction: exactly "not the other truth value" - when only one incoming value can have that one, the negated
+            # conjunction of that value's test and the tests that lead to it (the item chain_guards gives the short-circuit spelling)
+            if depth == 0:
+                oth = []
+                for a, p in zip(d.args, d.extra['preds']):
+                    sa = strip(a)
+                    if sa.kind == 'const' and sa.args[0] in (0, 1, True, False):
+                        if bool(sa.args[0]) != truth:
+                            oth.append((p, None))
+                    else:
+                        oth.append((p, sa))
+                if len(oth) == 1:
+                    p, sa = oth[0]
+                    conj = set(self.guards(p)) - set(self.guards(d.extra.get('block')))
+                    if sa is not None:
+                        ex = self.expand_predicate(sa, not truth) if self.inline else None
+                        if ex is not None:
+                            conj |= set(ex)
+                        else:
+                            conj.add(self.cond(sa, not truth))
+                    conj = {c_ for c_ in conj if not (isinstance(c_[0], str) and c_[0].startswith('all('))}
+                    if conj:
+                        return [(all_term(conj), False)]
+            return []
         if not cands:
             return None
         p, sa = cands[0]
@@ -330,7 +353,14 @@ class Gef:
         want = 'true' if truth else 'false'
         hits = [g for (g, kind, text) in sub if text == want]
         if len(hits) != 1:
-            return None     # a disjunction: keep the call as the test it is (dropping it would hide which argument it tests)
+            # a disjunction: this truth value is exactly "not the other one" - when the other one is a single conjunction, the
+            # test is that conjunction negated (the same item the short-circuit spelling `a && b` gets on its else side)
+            other = [g for (g, kind, text) in sub if text != want]
+            if len(other) == 1 and other[0]:
+                argt = {'<P%d>' % (i + 1): self.term(a) for i, a in enumerate(d.args)}
+                conj = [(norm_eq(subst(ct, argt)), tr) for ct, tr in other[0]]
+                return [(all_term(conj), False)]
+            return None     # keep the call as the test it is (dropping it would hide which argument it tests)
         argt = {'<P%d>' % (i + 1): self.term(a) for i, a in enumerate(d.args)}
         return [(norm_eq(subst(ct, argt)), tr) for ct, tr in hits[0]]
 
@@ -384,7 +414,77 @@ class Gef:
                         out.add((self.term(d), vals[0] == 1))      # the arm of a two-variant enum: the same test as `== Variant`
                     else:
                         out.add((self.term(d), 'v%s' % (vals[0] if vals else 'other')))
+        out |= self.chain_guards(block)
+        out = simplify_all(out)
         return tuple(sorted(out, key=str))
+
+    def chain_guards(self, block):
+        """the else side of a short-circuit test (`if a && b { T } else { X }`, `if a || b { X } else { T }`): X is entered from
+        each test of the chain on the edge that decides against T; what holds there is the negated conjunction of what leads to T"""
+        from rules.gate import edge_truth
+        b = self.b
+        cfg = b.cfg
+        out = set()
+        loops = cfg.loops()
+        for M in cfg.rpo:
+            if len(cfg.pred[M]) < 2 or M in loops or not (M == block or cfg.dominates(M, block)):
+                continue
+            preds = list(cfg.pred[M])
+            sw = []
+            ok = True
+            via = {}
+            for p_ in preds:
+                tgt_ = M
+                t = b.mir['blocks'][p_]['term']
+                if t.get('k') == 'goto' and len(cfg.pred[p_]) == 1 and not any(st_.point[0] == p_ for st_ in b.stores) and p_ not in b.call_at:
+                    tgt_, p_ = p_, cfg.pred[p_][0]          # an empty landing block of the edge
+                    t = b.mir['blocks'][p_]['term']
+                if t.get('k') != 'switch' or p_ not in b.switch_discr or len(set(cfg.succ[p_])) != 2:
+                    ok = False
+                    break
+                via[p_] = tgt_
+                tr = edge_truth(t, tgt_)
+                if tr is None:
+                    ok = False
+                    break
+                sw.append((p_, tr))
+            if not ok or len(sw) < 2 or len(sw) > 4:
+                continue
+            # order by dominance; every test but the last continues (on its other edge) to the next one and nowhere else
+            sw0 = list(sw)
+            sw = sorted(sw0, key=lambda x: sum(1 for y in sw0 if cfg.dominates(y[0], x[0])))
+            chain_ok = True
+            for (s1, _), (s2, _) in zip(sw, sw[1:]):
+                other = [x for x in set(cfg.succ[s1]) if x != via.get(s1, M)]
+                if len(other) != 1 or not (other[0] == s2 or cfg.dominates(other[0], s2)) or M in cfg.reachable_from(other[0]) - {M} and False:
+                    chain_ok = False
+                    break
+                # nothing but the computation of the next test in between: no other way out
+                cur = other[0]
+                steps = 0
+                while cur != s2 and steps < 6:
+                    nx = [x for x in cfg.succ[cur] if x in cfg.can_return]
+                    if len(nx) != 1 or len(cfg.pred[cur]) != 1:
+                        chain_ok = False
+                        break
+                    cur = nx[0]
+                    steps += 1
+                if cur != s2 or len(cfg.pred[s2]) != 1:
+                    chain_ok = False
+                if not chain_ok:
+                    break
+            if not chain_ok:
+                continue
+            conj = []
+            for (s_, tr) in sw:
+                d = b.switch_discr[s_]
+                ex = self.expand_predicate(d, not tr) if self.inline else None
+                if ex is not None:
+                    conj += list(ex)
+                else:
+                    conj.append(self.cond(d, not tr))
+            out.add((all_term(conj), False))
+        return out
 
     # ---- rendering of one event (under the current choice of merge operands) ---------------------------------
     def _render_store(self, st):
@@ -618,6 +718,45 @@ class Gef:
                 d2.append(e)
             dedup = d2
         return sort_independent(dedup)
+
+
+def all_term(conj):
+    """canonical term for a conjunction of (term, truth) tests"""
+    return 'all(' + ' & '.join(sorted('%s=%s' % (ct, tr) for ct, tr in set(conj))) + ')'
+
+
+def parse_all(term):
+    mem = []
+    for m_ in term[4:-1].split(' & '):
+        ct_, _, tr_ = m_.rpartition('=')
+        mem.append((ct_, tr_ == 'True'))
+    return mem
+
+
+def simplify_all(gs):
+    """a negated conjunction next to plain tests: true outright when a member is refuted by a plain test (drop it); the negation of
+    its one open member when all the others hold"""
+    gs = set(gs)
+    changed = True
+    while changed:
+        changed = False
+        for (ct, tr) in list(gs):
+            if not (isinstance(ct, str) and ct.startswith('all(') and tr is False):
+                continue
+            mem = parse_all(ct)
+            if any((c_, (not t_)) in gs for c_, t_ in mem):
+                gs.discard((ct, tr))
+                changed = True
+                continue
+            open_ = [(c_, t_) for c_, t_ in mem if (c_, t_) not in gs]
+            if len(open_) < len(mem):
+                gs.discard((ct, tr))
+                if len(open_) == 1:
+                    gs.add((open_[0][0], not open_[0][1]))
+                elif len(open_) > 1:
+                    gs.add((all_term(open_), False))
+                changed = True
+    return gs
 
 
 def norm_eq(ct):
@@ -861,6 +1000,23 @@ def side_partitions(form):
     return out
 
 
+def sort_eq(c2):
+    if c2.startswith('Eq(') and c2.endswith(')'):
+        inner = c2[3:-1]
+        depth = 0
+        for i, ch in enumerate(inner):
+            if ch == '(':
+                depth += 1
+            elif ch == ')':
+                depth -= 1
+            elif ch == ',' and depth == 0:
+                a, b2 = inner[:i], inner[i + 1:]
+                if a > b2:
+                    a, b2 = b2, a
+                return 'Eq(%s,%s)' % (a, b2)
+    return c2
+
+
 def mirror_form(form):
     from hircanon import swap_lr
 
@@ -872,20 +1028,13 @@ def mirror_form(form):
         for c, tr in g:
             c2 = swap_lr(c)
             # keep == operands sorted after the swap
-            if c2.startswith('Eq(') and c2.endswith(')'):
-                inner = c2[3:-1]
-                depth = 0
-                for i, ch in enumerate(inner):
-                    if ch == '(':
-                        depth += 1
-                    elif ch == ')':
-                        depth -= 1
-                    elif ch == ',' and depth == 0:
-                        a, b2 = inner[:i], inner[i + 1:]
-                        if a > b2:
-                            a, b2 = b2, a
-                        c2 = 'Eq(%s,%s)' % (a, b2)
-                        break
+            c2 = sort_eq(c2)
+            if c2.startswith('all(') and c2.endswith(')'):
+                mem = []
+                for m_ in c2[4:-1].split(' & '):
+                    ct_, _, tr_ = m_.rpartition('=')
+                    mem.append('%s=%s' % (resort(sort_eq(ct_)), tr_))
+                c2 = 'all(' + ' & '.join(sorted(mem)) + ')'
             g2.append((resort(c2), tr))
         res.append((tuple(sorted(g2, key=str)), kind, resort(mt(text))))
     return sort_independent(res)
